@@ -484,6 +484,146 @@ func e2e(id string, seed uint64) runner.Result {
 	return res
 }
 
+// twoHop: the handler of a call on a front server makes a call of its own to a back server, with a
+// context derived from the one it is serving (so the metadata it was called with is on it) and,
+// mostly, pairs of its own attached on top. What is attached to that second call's context is what
+// the back server's handler must see, nothing more and nothing less.
+func twoHop(id string, seed uint64) runner.Result {
+	r := &payload.SplitMix{S: seed}
+	var mu sync.Mutex
+	var backSaw, attached []map[string]string
+	cp := func(m map[string]string) map[string]string {
+		out := map[string]string{}
+		for k, v := range m {
+			out[k] = v
+		}
+		return out
+	}
+	// (the back connection cancels softly: the front handler's context ends the moment it returns, which can
+	// meet the last step of its finished back call, and a hard cancel there closes the connection for the next)
+	softOpts := drpcmanager.Options{SoftCancel: true}
+	back := rig.New(rig.Config{Net: simnet.Opts{Cap: -1}, Client: softOpts, Server: softOpts}, rig.HandlerFunc(func(stream drpc.Stream, rpc string) error {
+		var m []byte
+		if err := stream.MsgRecv(&m, payload.Enc{}); err != nil {
+			return err
+		}
+		md, _ := drpcmetadata.Get(stream.Context())
+		mu.Lock()
+		backSaw = append(backSaw, cp(md))
+		mu.Unlock()
+		out := payload.Make(2, 1, 0, 0, 3)
+		return stream.MsgSend(&out, payload.Enc{})
+	}))
+	defer back.Teardown()
+	type plan struct {
+		style  string
+		extra  map[string]string
+		stream bool
+	}
+	var plans []plan
+	ncalls := 2 + r.Intn(5)
+	for i := 0; i < ncalls; i++ {
+		plans = append(plans, plan{style: payload.Pick(r, []string{"as-is", "Add", "AddPairs", "Add-overwriting-an-incoming-key", "fresh-context+Add"}), extra: genMap(r), stream: r.Intn(2) == 0})
+	}
+	idx := 0
+	front := rig.New(rig.Config{Net: simnet.Opts{Cap: -1}}, rig.HandlerFunc(func(stream drpc.Stream, rpc string) error {
+		var m []byte
+		if err := stream.MsgRecv(&m, payload.Enc{}); err != nil {
+			return err
+		}
+		p := plans[idx]
+		idx++
+		ctx := stream.Context()
+		switch p.style {
+		case "Add":
+			for k, v := range p.extra {
+				ctx = drpcmetadata.Add(ctx, k, v)
+			}
+		case "AddPairs":
+			ctx = drpcmetadata.AddPairs(ctx, p.extra)
+		case "Add-overwriting-an-incoming-key":
+			in, _ := drpcmetadata.Get(ctx)
+			for k := range in {
+				ctx = drpcmetadata.Add(ctx, k, "replaced-by-the-front")
+				break
+			}
+			ctx = drpcmetadata.Add(ctx, "hop", "2")
+		case "fresh-context+Add":
+			ctx = context.Background()
+			for k, v := range p.extra {
+				ctx = drpcmetadata.Add(ctx, k, v)
+			}
+		}
+		want, _ := drpcmetadata.Get(ctx)
+		mu.Lock()
+		attached = append(attached, cp(want))
+		mu.Unlock()
+		in := payload.Make(2, 0, 0, 0, 4)
+		var out []byte
+		if p.stream {
+			st, err := back.Conn.NewStream(ctx, "/back", payload.Enc{})
+			if err != nil {
+				return err
+			}
+			// the back call is over before the front client gets its answer (and, by closing its call, ends
+			// the context this call runs on)
+			if err := st.MsgSend(&in, payload.Enc{}); err != nil {
+				st.Close()
+				return err
+			}
+			err = st.MsgRecv(&out, payload.Enc{})
+			st.Close()
+			if err != nil {
+				return err
+			}
+		} else if err := back.Conn.Invoke(ctx, "/back", payload.Enc{}, &in, &out); err != nil {
+			return err
+		}
+		return stream.MsgSend(&out, payload.Enc{})
+	}))
+	defer front.Teardown()
+	var desc []string
+	for i, p := range plans {
+		ctx := context.Background()
+		incoming := genMap(r)
+		if r.Intn(4) != 0 {
+			for len(incoming) == 0 {
+				incoming = genMap(r)
+			}
+		}
+		ctx = drpcmetadata.AddPairs(ctx, incoming)
+		desc = append(desc, fmt.Sprintf("call%d(incoming=%d, front: %s +%d, stream=%v)", i+1, len(incoming), p.style, len(p.extra), p.stream))
+		in := payload.Make(1, 0, 0, 0, 4)
+		var out []byte
+		op := rig.Go("call", func() (interface{}, error) { return nil, front.Conn.Invoke(ctx, "/front", payload.Enc{}, &in, &out) })
+		if !op.Wait() {
+			return runner.Inconcl(id, "a two-hop call did not return")
+		}
+		if op.Err != nil {
+			return runner.Inconcl(id, fmt.Sprintf("two-hop call %d (%s) failed: %s; back connection closed=%v front connection closed=%v", i+1, desc[len(desc)-1], op.Err.Error(), rig.IsClosed(back.Conn.Closed()), rig.IsClosed(front.Conn.Closed())))
+		}
+	}
+	census.Quiesce(rig.Watchdog)
+	mu.Lock()
+	defer mu.Unlock()
+	var fails []string
+	if len(backSaw) != ncalls || len(attached) != ncalls {
+		fails = append(fails, fmt.Sprintf("%d calls, the front handler made %d, the back handler served %d", ncalls, len(attached), len(backSaw)))
+	} else {
+		for i := range attached {
+			if !eqMap(attached[i], backSaw[i]) {
+				fails = append(fails, fmt.Sprintf("call %d: the front handler's call to the back server had %s attached to its context, the back handler saw %s", i+1, summarize(attached[i]), summarize(backSaw[i])))
+			}
+		}
+	}
+	if len(fails) > 0 {
+		return runner.Violation(id, "metadata-two-hop", strings.Join(desc, " ")+"\n"+strings.Join(fails, "\n"))
+	}
+	res := runner.Hold(id, strings.Join(desc, " "), true)
+	res.Events = int64(2 * ncalls)
+	return res
+}
+
 // abandoned: at wire level, a metadata packet for stream N that is never
 // followed by its invoke (the caller gave up in between), then call N+1.
 func abandoned(id string, seed uint64) runner.Result {
@@ -719,6 +859,8 @@ func gen(tier string, seed uint64) []runner.Scenario {
 		out = append(out, runner.Scenario{ID: id, Run: func() runner.Result { return e2e(id, payload.Hash(seed, 0x113, uint64(i))) }})
 		id2 := fmt.Sprintf("abandoned/%d", i)
 		out = append(out, runner.Scenario{ID: id2, Run: func() runner.Result { return abandoned(id2, payload.Hash(seed, 0x114, uint64(i))) }})
+		id3 := fmt.Sprintf("two-hop/%d", i)
+		out = append(out, runner.Scenario{ID: id3, Run: func() runner.Result { return twoHop(id3, payload.Hash(seed, 0x115, uint64(i))) }})
 	}
 	return out
 }
